@@ -1,8 +1,9 @@
 #!/usr/bin/env python3
 """tools/seed.py <seed-id> <src-dir> <property> <check> [<check>...]
 Confirms a seeded change (patch.diff + zz_demo_test.go from a sub-agent) in a
-scratch worktree of /repo's HEAD, then applies it to /repo, runs the given
-checks (quick tier), reverts /repo, and files everything under
+scratch worktree of /repo's HEAD, then runs the given checks (quick tier)
+against a second scratch copy with the patch applied (tools/trymut.sh; /repo itself
+is never modified), and files everything under
 /verif/seeded/<seed-id>/ with meta.json."""
 import json, os, shutil, subprocess, sys, time
 
@@ -54,20 +55,16 @@ def main():
     ok = meta.get("clean_suite_plus_demo_passes") and meta.get("patch_applies") and meta.get("patched_builds_and_suite_passes") and meta.get("patched_demo_fails")
     meta["confirmed"] = bool(ok)
     if ok and checks:
-        st = sh("git -C /repo status --porcelain")[1].strip()
-        assert st == "", "/repo not clean: " + st
-        rc, out = sh("git -C /repo apply %s" % patch)
-        assert rc == 0, out
-        try:
-            for chk in checks:
-                t0 = time.time()
-                rc, out = sh("./run %s quick" % chk, cwd="/verif")
-                keys = [l.strip() for l in out.splitlines() if l.strip().startswith("key:")]
-                meta["ran"].append({"check": chk, "tier": "quick", "exit": rc, "detected": rc == 1,
-                                    "violation_keys": keys[:8], "summary": [l for l in out.splitlines() if l.startswith(chk)][:1], "wall_s": round(time.time() - t0, 1)})
-        finally:
-            sh("git -C /repo checkout -- .")
-            sh("git -C /repo clean -fdq zygo")
+        # run the checks against a scratch copy of /repo's HEAD with the patch applied (tools/trymut.sh):
+        # /repo, /verif/bin, /verif/evidence and /verif/replays are not touched
+        for chk in checks:
+            t0 = time.time()
+            rc, out = sh("tools/trymut.sh %s %s quick" % (patch, chk), cwd="/verif")
+            keys = [l.strip() for l in out.splitlines() if l.strip().startswith("key:")]
+            summ = [l for l in out.splitlines() if l.startswith(chk)][:1]
+            detected = any("VIOLATION property=" in l for l in out.splitlines())
+            meta["ran"].append({"check": chk, "tier": "quick", "exit": 1 if detected else 0, "detected": detected,
+                                "violation_keys": keys[:8], "summary": summ, "wall_s": round(time.time() - t0, 1)})
     meta["detected_by"] = [r["check"] for r in meta["ran"] if r["detected"]]
     json.dump(meta, open(os.path.join(dst, "meta.json"), "w"), indent=1)
     print(json.dumps({k: meta[k] for k in ("seed", "confirmed", "detected_by")}), [(r["check"], r["exit"], r["violation_keys"][:2]) for r in meta["ran"]])
